@@ -99,6 +99,21 @@ theorem lexGo_newline_split (a : Str) : ∀ (k : Bool) (cur b : Str),
       · simp
       · split <;> split <;> simp
 
+/-- tokens never straddle a blank -/
+theorem lexGo_blank_split (a : Str) : ∀ (k : Bool) (cur b : Str),
+    lexGo k cur (a ++ ' ' :: b) = lexGo k cur a ++ lexGo false [] b := by
+  induction a with
+  | nil => intro k cur b; rw [List.nil_append, lexGo_blank, lexGo]
+  | cons c a ih =>
+    intro k cur b
+    rw [List.cons_append, lexGo, lexGo]
+    simp only [ih, List.append_assoc]
+    split
+    · simp
+    · split
+      · simp
+      · split <;> split <;> simp
+
 /-- a plain word: non-empty, no blank, newline or operator character -/
 def Plain (w : Str) : Prop := w ≠ [] ∧ ∀ c ∈ w, wordChar c = true
 
